@@ -349,7 +349,7 @@ def props_of(conj, sig, group):
         return ps
     if kind == 'emb':
         ps.add('C18')
-        if conj == 'nopanic':
+        if conj in ('nopanic', 'populate'):
             ps.add('C13')
         if conj == 'observers':
             ps.add('C05')
